@@ -130,6 +130,11 @@ func (s *genSuite) roundTrip(seq int) {
 			behind = true
 		}
 	}
+	// Likewise a chain exported after governance enabled csr but before the next BeginBlock deployed the Turnstile: the
+	// post-import block legitimately deploys it.
+	if g1.Csr.Params.EnableCsr && g1.Csr.TurnstileAddress == "" {
+		behind = true
+	}
 	if behind {
 		dja := diffSections(sec1, sec2a)
 		dka := diffKV(cdc, kv1, kv2a)
